@@ -1244,11 +1244,12 @@ class Timezone(Component):
         # dstoffset = 0, if current transition is to standard time
         #           = this_utcoffset - prev_standard_utcoffset, otherwise
         transition_info = []
+        has_standard = any(not transition[4] for transition in transitions)
         for num, (transtime, osfrom, osto, name, is_dst) in enumerate(transitions):
             dst_offset = False
             if not is_dst:
                 dst_offset = timedelta(seconds=0)
-            else:
+            elif has_standard:
                 # go back in time until we find a transition to dst
                 for index in range(num - 1, -1, -1):
                     if not transitions[index][4]:  # [4] is is_dst
